@@ -5,6 +5,8 @@ import json, subprocess
 props=[json.loads(l) for l in open('/verif/properties.jsonl')]
 hooks_commit=subprocess.run(['git','-C','/repo','log','--format=%h','--grep=verif hooks','-1'],capture_output=True,text=True).stdout.strip()
 C={
+ "C06":("fault_enumeration","exhaustive power-loss image enumeration: every failure instant x every admissible combination of per-file surviving write prefixes (512-byte tears) of every history word <= d, both sync modes; per-key durability oracle","power-loss model as stated in the property; bounded history depth; cap 4096 images per instant (reported when it binds)"),
+ "C09":("fault_enumeration","exhaustive power-loss image enumeration over every instant from the return of Close to the end of the next Open x full product of per-file surviving prefixes over all files; exact-contents oracle","power-loss model as stated in the property; bounded history depth"),
  "C01":("model_checking","bounded exhaustive operation-sequence enumeration (explicit-state search on the implementation) against a reference map + structural index invariant",
         "all words <= depth d over 16 letters from 6 engineered index states x 3 segment configs, every step checked; bounded depth/alphabet, simfs file system"),
  "C02":("model_checking","bounded exhaustive enumeration of operation sequences with Close/Open at every position; reference map, op-log 'no recovery ran' oracle, independent decoder replay",
